@@ -75,12 +75,7 @@ pub proof fn lemma_tree_range(i: u16, k: AKey)
 impl Writer {
 //@extract src/writer.rs | impl<D: Distance> Writer<D> | item_indices
 //@attr #[verifier::exec_allows_no_decreases_clause]
-//@spec
-    ensures
-        final(wtxn).view() == old(wtxn).view(),
-        // C05: exactly the ids that have an Item key in this index
-        r matches Ok(bm) ==> forall|id: u32| bm@.contains(id) <==> old(wtxn).view().contains_key(ikey(self.index, id)),
-        r matches Err(e) ==> build_err(e),
+//@specfile lib/contracts/item_indices.spec
 //@loop 0
         invariant
             wtxn.view() == old(wtxn).view(),
@@ -105,15 +100,7 @@ impl Writer {
 
 //@extract src/writer.rs | impl<D: Distance> Writer<D> | reset_and_retrieve_updated_items
 //@attr #[verifier::exec_allows_no_decreases_clause]
-//@spec
-    ensures
-        // C07: only Updated keys of this index are touched, and only removed
-        same_except(old(wtxn).view(), final(wtxn).view(), self.index, false, false, true, false),
-        only_removed(old(wtxn).view(), final(wtxn).view()),
-        // C06: on success every mark is consumed and returned
-        r matches Ok(bm) ==> (forall|id: u32| bm@.contains(id) <==> old(wtxn).view().contains_key(ukey(self.index, id)))
-            && !has_mark(final(wtxn).view(), self.index),
-        r matches Err(e) ==> build_err(e),
+//@specfile lib/contracts/reset_and_retrieve_updated_items.spec
 //@loop 0
         invariant
             wtxn.view() == updated_iter.cur@,
@@ -177,22 +164,7 @@ env!("CARGO_PKG_VERSION_PATCH").parse().unwrap()
 ===
 pkg_version_patch_()
 >>>
-//@spec
-    requires self.dimensions <= u32::MAX,
-    ensures
-        // C07 / C05: items, marks and other indexes untouched
-        same_except(old(wtxn).view(), final(wtxn).view(), self.index, true, false, false, true),
-        r matches Err(e) ==> build_err(e),
-        // C15 / C01: on success the forest is exactly one bucket holding every item (or nothing), recorded in the metadata
-        r is Ok ==> ({
-            let v = final(wtxn).view();
-            &&& (forall|id: u32| v.contains_key(tkey(self.index, id)) ==> id == 0 && item_indices@.len() > 0)
-            &&& (item_indices@.len() > 0 ==> v.contains_key(tkey(self.index, 0)) && v[tkey(self.index, 0)] == AVal::Tree(TNode::Desc(item_indices@)))
-            &&& v.contains_key(mkey(self.index))
-            &&& v[mkey(self.index)] == AVal::Meta(MetaV { dimensions: self.dimensions as u32, items: item_indices@,
-                    roots: if item_indices@.len() > 0 { seq![0u32] } else { Seq::<u32>::empty() }, distance: Dist::name_spec() })
-            &&& v.contains_key(vkey(self.index)) && v[vkey(self.index)] == AVal::Version(pkg_version().0, pkg_version().1, pkg_version().2)
-        }),
+//@specfile lib/contracts/clear_db_and_create_a_single_leaf.spec
 //@end
 
 //@extract src/writer.rs | impl<D: Distance> Writer<D> | prepare_changing_distance
